@@ -287,6 +287,9 @@ class Report:
 
     def finish(self, proof: dict | None, extra_assumptions=()):
         cov = self.coverage
+        for k in ('evaluations', 'distinct_nontrivial'):          # counts may have been summed over numpy scalars
+            if k in cov and not isinstance(cov[k], int):
+                cov[k] = int(cov[k])
         if proof is not None:
             cov['obligations'] = len(proof['theorems'])
             cov['discharged'] = (len(proof['theorems']) - proof.get('undischarged', 0)) if proof['ok'] else 0
